@@ -12,6 +12,8 @@ Transcribed from
   137-158 (`_replace_tensors`),
 * `src/onnx_ir/_io.py` 171-199 (`save`: collect, try, finally-restore).
 
+Line numbers are those of the snapshot the work started from (/repo ba80127); the fixes D60-D63
+(8e6568a, 2321f48, bd663f8, db4dfb4) are included in what is transcribed.
 Sizes, offsets and bytes are `Nat`; thresholds that Python does not validate are `Int`.
 Only core Lean is imported (the file is linked into the `irdriver` executable).
 -/
